@@ -74,6 +74,10 @@ type Config struct {
 	Cipher int    `json:"cipher,omitempty"`
 	RvInfo bool   `json:"rvinfo,omitempty"` // non-empty rendezvous info in credentials
 	AIO    bool   `json:"aio,omitempty"`    // all-in-one deployment: one database, fdo.AllInOne callbacks in DI
+	// AltChain: the certificate chain configured in the owner service's key store is not the chain
+	// vouchers were extended to (same key, certificate issued again): what X5CHAIN vouchers name
+	// and what the service sends differ byte-wise while the key is the same.
+	AltChain bool `json:"altchain,omitempty"`
 }
 
 type lifeOwnerMod struct{}
@@ -128,7 +132,25 @@ func New(cfg Config, run int) *Exec {
 	w := world.New(opt)
 	e := &Exec{Cfg: cfg, W: w, run: run, owners: []*world.Party{w.Owner}}
 	e.Dev = w.NewDevice("")
+	e.serveAs(w.Owner)
 	return e
+}
+
+// serveAs configures the key the owner service signs with.
+func (e *Exec) serveAs(p *world.Party) {
+	if e.Cfg.AltChain {
+		p = &world.Party{Name: p.Name, Kind: p.Kind, Key: p.Key, Chain: world.SelfSigned(p.Key, p.Name+"-reissued")}
+	}
+	e.W.OwnerKeys.Set(p)
+}
+
+// storeFail makes the vouchers table of the store refuse inserts until the returned function runs.
+func storeFail(s *world.Store) func() {
+	_, err := s.DB.DB().Exec(`CREATE TRIGGER verif_storefail BEFORE INSERT ON vouchers BEGIN SELECT RAISE(FAIL, 'verif: storage full'); END`)
+	if err != nil {
+		panic("harness: cannot install the storage fault: " + err.Error())
+	}
+	return func() { _, _ = s.DB.DB().Exec(`DROP TRIGGER IF EXISTS verif_storefail`) }
 }
 
 func mustCBOR(v any) []byte {
@@ -151,8 +173,8 @@ func (e *Exec) owner(i int) *world.Party {
 
 // cutHook cuts the first exchange whose request has type c.T.
 func cutHook(c Cut) *world.Hook {
-	if c.Kind == "" || c.Kind == "none" {
-		return nil
+	if c.Kind == "" || c.Kind == "none" || c.Kind == "storefail" {
+		return nil // a storage fault is injected in the database, not on the wire
 	}
 	var done int32
 	hit := func(x *world.Exchange) bool {
@@ -201,6 +223,9 @@ func (e *Exec) Do(a Action) Event {
 		}()
 		switch a.A {
 		case "di":
+			if a.Cut.Kind == "storefail" {
+				defer storeFail(e.W.MfgStore)()
+			}
 			_, err := e.W.RunDI(ctx, e.Dev, cutHook(a.Cut))
 			ev.OK = err == nil
 			if err != nil {
@@ -220,6 +245,9 @@ func (e *Exec) Do(a Action) Event {
 				ev.Err = err.Error()
 			}
 		case "to2":
+			if a.Cut.Kind == "storefail" {
+				defer storeFail(e.W.OwnerStore)()
+			}
 			e.W.Opt.Reuse = a.Reuse
 			before := e.Dev.Cred
 			mods := map[string]serviceinfo.DeviceModule{}
@@ -262,7 +290,7 @@ func (e *Exec) Do(a Action) Event {
 			if err == nil {
 				e.oidx++
 				e.W.Owner = next
-				e.W.OwnerKeys.Set(next)
+				e.serveAs(next)
 			}
 			ev.OK = err == nil
 			if err != nil {
